@@ -87,6 +87,11 @@ fn main() {
         }
         "c19run" => props::c19::proc_main("c19run", &args[2]),
         "alone" => props::c19::proc_main("alone", &args[2]),
+        "selftest" => {
+            let ids: Vec<String> = if args.len() > 2 { args[2..].to_vec() } else { props::ALL.iter().map(|s| s.to_string()).collect() };
+            let scns = ids.iter().filter_map(|i| props::scenario(i)).collect();
+            engine::selftest(scns, engine::env_u64("VERIF_SEED", 1))
+        }
         "replay" => engine::replay(&|id| props::scenario(id), &args[2]),
         other => {
             eprintln!("unknown mode {}", other);
